@@ -60,6 +60,11 @@ class Ctx(object):
         self.notes = {}
         self.exhaustive = None
         self.t0 = time.time()
+        # known findings are classified where they are observed, so that a frequent
+        # known mechanism can never crowd a new violation out of the kept list
+        self.known_keys = set(load_known_findings().get(prop, {}))
+        self.known_seen = collections.Counter()
+        self.classifier = None
 
     # -- budgets ---------------------------------------------------------
     def quick(self):
@@ -103,10 +108,18 @@ class Ctx(object):
             self.samples.append(obj)
 
     def violation(self, mechanism, message, case, **details):
+        v = {'mechanism': mechanism, 'message': message, 'case': case}
+        v.update(details)
+        if self.classifier is not None and self.known_keys:
+            try:
+                key = self.classifier(v)
+            except Exception:
+                key = None
+            if key is not None and key in self.known_keys:
+                self.known_seen[key] += 1
+                return
         self.n_violations += 1
         if len(self.violations) < MAX_VIOLATIONS_KEPT:
-            v = {'mechanism': mechanism, 'message': message, 'case': case}
-            v.update(details)
             self.violations.append(v)
 
     def to_json(self):
@@ -121,6 +134,7 @@ class Ctx(object):
             'violations': self.violations,
             'n_violations': self.n_violations,
             'unavailable': sorted(self.unavailable),
+            'known_seen': dict(self.known_seen),
             'notes': self.notes,
             'exhaustive': self.exhaustive,
             'wall_s': time.time() - self.t0,
@@ -284,6 +298,8 @@ def finish(mod, prop, tier, seed, results, lost, t0, out, replaying=False):
     # --- classify violations against the committed known findings
     known = load_known_findings().get(prop, {})
     known_seen = collections.Counter()
+    for r in results:
+        known_seen.update(r.get('known_seen', {}))
     real = []
     for v in violations:
         key = None
